@@ -123,7 +123,9 @@ def monitorSync (c : SyCase) (obs : String) : String :=
   let wf := wfSnapshot pods
   let v := i.view
   let podFaulted := c.plan.any (fun f => (f.key.splitOn ":").getD 1 "" == "pod")
-  verdict [
+  -- what the writes CARRY (patch bodies and types, owner references and identity of created objects, delete options, the
+  -- status subresource): judged by the harness call by call, each failed check arrives as a clause name
+  verdict <| ((csv (fieldD obs "wbad") ",").map (fun t => (t, false))) ++ [
     ("C01.creates", !reached || C01creates v acts),
     ("C03.justified", !reached || C03 v m.upd pods acts (o.out == "ok")),
     ("C04.vacant", !reached || !wf || C04 v pods acts),
@@ -176,7 +178,7 @@ def stepSync (cas obs : String) : String :=
     let ob := o.observe
     let stS := match o.status with | some s => showStatus s | none => "-"
     let ccS := match o.status, o.cc with | some _, some n => toString n | _, _ => "-"
-    let model := s!"log={",".intercalate ob.log} status={stS} cc={ccS} revs={";".intercalate (ob.revs.map showRevD)} out={ob.out} mut=0 creates={",".intercalate ((o.acts.take (if o.outcome == .ok || o.log.isEmpty then o.acts.length else o.acts.length)).filterMap (fun a => match a with | .create od rv => some s!"{canonicalName c.i.setName od}@{rv}" | _ => none))} stvar=0 tplbad=0"
+    let model := s!"log={",".intercalate ob.log} status={stS} cc={ccS} revs={";".intercalate (ob.revs.map showRevD)} out={ob.out} mut=0 creates={",".intercalate ((o.acts.take (if o.outcome == .ok || o.log.isEmpty then o.acts.length else o.acts.length)).filterMap (fun a => match a with | .create od rv => some s!"{canonicalName c.i.setName od}@{rv}" | _ => none))} stvar=0 tplbad=0 wbad="
     let obs' := match obs.splitOn " site=" with | o :: _ => o | [] => obs
     -- a history holding a revision whose data cannot be applied (JSON, but not a StatefulSet once patched): the model has
     -- no such revisions; the case is judged on the real code only: no panic, and when the stored current revision is such a
